@@ -37,7 +37,8 @@ def migOfJson (j : Json) : Option Mig := do
   let cv ← getBool j "createVT"
   pure { segs := segs, nver := nver, createVT := cv }
 
-def cfgOfJson (j : Json) : Cfg := { tddl := getBoolD j "tddl", perMig := getBoolD j "perMig" }
+def cfgOfJson (j : Json) : Cfg :=
+  { tddl := getBoolD j "tddl", perMig := getBoolD j "perMig", connInTxn := getBoolD j "connInTxn" }
 
 def handle (op : String) (j : Json) : Option Json :=
   match op with
